@@ -13,12 +13,12 @@ pub static DEF: PropDef = PropDef {
     rule: "inputs: every byte string of length <=3 (quick) / <=4 (thorough) enumerated, plus generated \
 streams (real compressors, independent valid-stream generator, mutations of both, noise behind plausible \
 block headers); each is given to decompress_deflate_stream with verify=false and verify=true; oracle: returns \
-Ok or Err (no panic, no abort, no hang: watchdog 120 s per case, confirmed by a 600 s solo re-run). \
+Ok or Err (no panic, no abort, no hang: heart-beat watchdog 600 s per case, confirmed by an 1800 s solo re-run; the slowest case of each run is reported). \
 Non-trivial = the parser accepted the whole stream (estimator and predictor ran) or the input is >=4 bytes \
 and starts with a non-reserved block type; distinct = hash of the input bytes.",
     assumptions: &[
         "release profile of the current /repo working tree (debug assertions and overflow checks off, as shipped)",
-        "a case that exceeds the 120 s watchdog and the 600 s confirmation run is called a hang",
+        "a case that exceeds the 600 s watchdog and the 1800 s solo confirmation run is called a hang (slowest legitimate cases observed: ~15 s on a loaded machine)",
     ],
     worker,
     replay,
@@ -28,6 +28,19 @@ and starts with a non-reserved block type; distinct = hash of the input bytes.",
 };
 
 fn check_bytes(data: &[u8], ctx: &mut Ctx, labels: &[String]) -> Result<(), Failure> {
+    let t0 = std::time::Instant::now();
+    let r = check_bytes_inner(data, ctx, labels);
+    // not a verdict: the slowest case is reported so that "bounded time" has a number attached
+    let ms = t0.elapsed().as_millis() as u64;
+    let cur = ctx.extra.get("slowest_case_ms").and_then(|v| v.as_u64()).unwrap_or(0);
+    if ctx.counting && ms > cur {
+        ctx.extra.insert("slowest_case_ms".into(), json!(ms));
+        ctx.extra.insert("slowest_case_len".into(), json!(data.len()));
+    }
+    r
+}
+
+fn check_bytes_inner(data: &[u8], ctx: &mut Ctx, labels: &[String]) -> Result<(), Failure> {
     ctx.eval();
     let mut parsed_ok = false;
     for verify in [false, true] {
